@@ -47,7 +47,8 @@ GROUP = {"backoff_delay": "Recon", "should_attempt_reconnect": "Recon", "record_
          "set_conn_timeout_ms": "Cfg",
          "reg_handle_reg3": "Reg", "reg_handle_reg_err": "Reg", "reg_handle_reg_ngp": "Reg",
          "reg_clear_pending_if_timed_out": "Reg", "reg_build_reg1_for": "Reg", "reg_reg1_if_ngp_immediate": "Reg",
-         "reg_handle_reg2": "Reg"}
+         "reg_handle_reg2": "Reg",
+         "trk_insert": "Trk", "trk_get": "Trk"}
 # groups with a canonical signature: parameters = the self fields read in struct declaration order, then the
 # opaque getter inputs, then the Rust parameters in signature order; outputs in the same order.  (The four
 # earlier groups keep the order of first use in the body, which the lemmas of Proofs/Leaf{Recon,Live,Cong,
@@ -100,6 +101,9 @@ LEAVES = [
     ("reg_build_reg1_for", CORE + "registration/mod.rs", "SrtlaRegistrationManager", "build_reg1_for"),
     ("reg_reg1_if_ngp_immediate", CORE + "registration/mod.rs", "SrtlaRegistrationManager", "reg1_if_ngp_immediate"),
     ("reg_handle_reg2", CORE + "registration/mod.rs", "SrtlaRegistrationManager", "handle_reg2"),
+    # sequence tracker ring (C05): a function of the one element that is read / written (<local>_slot says which)
+    ("trk_insert", "src/sender/sequence.rs", "SequenceTracker", "insert"),
+    ("trk_get", "src/sender/sequence.rs", "SequenceTracker", "get"),
 ]
 
 # leaves whose equivalence lemma mentions leaf_<name>_asserts: the definition is emitted even when the
@@ -358,6 +362,18 @@ class P:
         k2, v2 = self.peek()
         if v2 in ("=", "+=", "-=", "*="):
             self.take()
+            if v2 == "=" and self.peek()[0] == "id" and self.peek()[1][:1].isupper() and self.peek(1)[1] == "{":
+                # struct literal `T { a, b: e }` (only as the whole right-hand side of an assignment)
+                tname = self.take()[1]
+                self.take()
+                flds = []
+                while self.peek()[1] != "}":
+                    fn_ = self.take()[1]
+                    flds.append((fn_, self.expr() if self.eat(":") else ("var", fn_)))
+                    self.eat(",")
+                self.expect("}")
+                self.expect(";")
+                return ("assign", e, ("structlit", tname, flds))
             rhs = self.expr()
             self.expect(";")
             if v2 != "=":
@@ -478,8 +494,11 @@ class P:
             if self.peek()[1] == "[":
                 self.take()
                 lo = self.expr()
+                if self.eat("]"):
+                    e = ("index", e, lo)
+                    continue
                 if not (self.eat(".") and self.eat(".")):
-                    raise TErr("indexing other than a range lo..hi")
+                    raise TErr("indexing other than [i] or a range [lo..hi]")
                 hi = self.expr()
                 self.expect("]")
                 e = ("slice", e, lo, hi)
@@ -554,6 +573,8 @@ class Ctx:
         self.local_names = set()  # Coq names of the locals bound so far
         self.used_enums = set()   # enums whose Inductive the group file must declare
         self.pseudo = {}          # pseudo outputs (opaque calls, byte-array copies): name -> initial value
+        self.slot_keys = {}       # <slot local>_<field> -> canonical sort key
+        self.slot_base = {}       # slot local -> index path of the array field
 
     def field_type(self, path):
         ty = self.self_type
@@ -653,7 +674,8 @@ FCAST = {("f64", "u64"): "Select.f64_as_u64", ("f64", "i32"): "Select.f64_as_i32
 SAT = {("saturating_sub", "u64"): "ssub", ("saturating_sub", "usize"): "ssub", ("saturating_sub", "u32"): "ssub",
        ("saturating_mul", "u64"): "sat_mul_u64", ("saturating_add", "u64"): "sat_add_u64",
        ("saturating_add", "u32"): "sat_add_u32", ("saturating_mul", "i32"): "sat_mul_i32",
-       ("saturating_add", "i32"): "sat_add_i32"}
+       ("saturating_add", "i32"): "sat_add_i32",
+       ("saturating_add", "usize"): "sat_add_u64", ("saturating_mul", "usize"): "sat_mul_u64"}   # usize = 64 bits (harness target)
 
 
 def sat_sub_i32(a, b):
@@ -717,6 +739,32 @@ def is_some_or_none(e):
 
 def is_ordering(e):
     return e[0] == "var" and e[1].split("::")[0] == "Ordering" and "::" in e[1]
+
+
+def slot_of(e, env):
+    """`entry` / `*entry` where `let entry = &[mut] self.<array of T>[i]` -> (local name, T) ; else None"""
+    while e[0] in ("deref", "paren"):
+        e = e[1]
+    if e[0] == "var" and (env.v.get(e[1], (None, None))[1] or "").startswith("slot:"):
+        return e[1], env.v[e[1]][1].split(":")[1]
+    return None
+
+
+def slot_field(env, sname, f):
+    """field f of the array element a slot local refers to: an input/output named <local>_<f>"""
+    ctx = env.ctx
+    T = env.v[sname][1].split(":")[1]
+    if f not in ctx.structs.get(T, {}):
+        raise TErr("struct %s has no field %s" % (T, f))
+    nm = "%s_%s" % (sname, f)
+    if nm not in ctx.ptype:
+        if nm in ctx.local_names or nm in getattr(ctx, "fn_param_names", ()):
+            raise TErr("name clash on %s" % nm)
+        ctx.ptype[nm] = ctx.structs[T][f]
+        ctx.params.append((nm, coq_type(ctx.structs[T][f])))
+        ctx.slot_keys[nm] = ctx.slot_base[sname] + (list(ctx.structs[T]).index(f),)
+        FIELD_PATHS[(id(ctx), nm)] = ["<slot %s>" % sname, f]
+    return nm, ctx.ptype[nm]
 
 
 def find_callee(recv, name, ctx):
@@ -820,6 +868,12 @@ def ev(e, env):
                 return env.cur(nm)
             env.setcur(nm, (nm, rty))
             return nm, rty
+        if slot_of(e[1], env) is not None:
+            nm, rty = slot_field(env, slot_of(e[1], env)[0], e[2])
+            if env.cur(nm) is not None:
+                return env.cur(nm)
+            env.setcur(nm, (nm, rty))
+            return nm, rty
         raise TErr("field access on non-self")
     if k == "deref":
         return ev(e[1], env)
@@ -905,6 +959,14 @@ def ev(e, env):
             return "(%s %s %s)" % (sa, op, sb), t
         if op == "/":
             return "(Z.quot %s %s)" % (sa, sb), t
+        if op in ("&", "|", "%", ">>") and ta in INT_TYPES | {None} and tb in INT_TYPES | {None} and t is not None:
+            if op != ">>" and ta is not None and tb is not None and ta != tb:
+                raise TErr("operator %s on %s and %s" % (op, ta, tb))
+            # bitwise and/or and a right shift of non-negative values stay in the type; `%` truncates like `/`
+            if op in ("&", "|") and t not in ("u8", "u16", "u32", "u64", "usize"):
+                raise TErr("operator %s on signed %s" % (op, t))
+            fn = {"&": "Z.land", "|": "Z.lor", "%": "Z.rem", ">>": "Z.shiftr"}[op]
+            return "(%s %s %s)" % (fn, sa, sb), (ta or tb) if op != ">>" else ta
         raise TErr("operator %s" % op)
     if k == "call":
         name, recv, args = e[1], e[2], e[3]
@@ -925,6 +987,22 @@ def ev(e, env):
             sb, _ = ev(cl[2], env2)
             dflt = "true" if name == "is_none_or" else "false"
             return "(match %s with Some %s => %s | None => %s end)" % (sr, cv, sb, dflt), "bool"
+        if slot_of(recv, env) is not None:
+            sname, T = slot_of(recv, env)
+            callee = REGISTRY.get((T, name))
+            if callee is None or callee["outs"]:
+                raise TErr("method %s on an element of type %s" % (name, T))
+            if len(args) != callee["nparams"]:
+                raise TErr("call of %s with %d arguments" % (callee["coq"], len(args)))
+            actual = []
+            for origin in callee["origins"]:
+                if origin[0] == "field":
+                    if len(origin[1]) != 1 or origin[2]:
+                        raise TErr("callee input %s on a slot" % (origin[1],))
+                    actual.append(ev(("field", ("var", sname), origin[1][0]), env)[0])
+                else:
+                    actual.append("(%s)" % ev(args[origin[1]], env)[0])
+            return "(leaf_%s %s)" % (callee["coq"], " ".join(actual)), callee["rtype"]
         found = find_callee(recv, name, ctx)
         if found is not None:
             callee, base = found
@@ -1015,6 +1093,8 @@ def ev(e, env):
 
 
 def lvalue_name(e, env):
+    if e[0] == "field" and slot_of(e[1], env) is not None:
+        return slot_field(env, slot_of(e[1], env)[0], e[2])[0]
     if e[0] == "deref":
         e = e[1]
     if e[0] == "var":
@@ -1041,6 +1121,8 @@ def has_string(e):
 def state_tuple(env, names, ret):
     parts = [env.v[n][0] if n in env.ctx.pseudo and n in env.v else env.ctx.pseudo[n] if n in env.ctx.pseudo
              else env.cur(n, (n, None))[0] for n in names]
+    if None in parts:
+        raise TErr("an array element is accessed on some paths only")
     if ret is not None:
         parts.append(ret)
     if not parts:
@@ -1095,9 +1177,44 @@ def effect_lvalue_name(lv, env):
     return lvalue_name(e, env)
 
 
+def slot_binding(s, env):
+    """`let x = &[mut] self.<field>[i];` with <field> an array of a known struct -> (x, T, field path, index expr)"""
+    if s[0] != "let" or s[2][0] != "index" or path_of(s[2][1]) is None:
+        return None
+    fty = env.ctx.field_type(path_of(s[2][1])) or ""
+    m = re.match(r"(?:Box<\s*)?\[\s*(\w+)\s*;[^\]]*\]\s*>?$", fty)
+    if not m or m.group(1) not in env.ctx.structs:
+        raise TErr("indexing self.%s of type %s" % (".".join(path_of(s[2][1])), fty))
+    return s[1], m.group(1), path_of(s[2][1]), s[2][2]
+
+
+def bind_slot(env, name, T, path):
+    ctx = env.ctx
+    idx, ty = [], ctx.self_type
+    for f in path:
+        idx.append(list(ctx.structs[ty]).index(f))
+        ty = ctx.structs[ty][f]
+    ctx.slot_base[name] = tuple(idx)
+    ctx.slot_keys[name + "_slot"] = tuple(idx)
+    ctx.pseudo.setdefault(name + "_slot", None)
+    env.v[name] = (name, "slot:" + T)
+
+
 def collect_assigned(stmts, env, acc):
     for s in stmts:
-        if s[0] == "assign":
+        if slot_binding(s, env) is not None:
+            name, T, path, _ = slot_binding(s, env)
+            bind_slot(env, name, T, path)
+            acc.append(name + "_slot")
+        elif s[0] == "assign" and s[2][0] == "structlit":
+            so = slot_of(s[1], env)
+            if so is None or s[1][0] != "deref":
+                raise TErr("struct literal assigned to something else than `*<slot local>`")
+            for f in env.ctx.structs[so[1]]:
+                n = slot_field(env, so[0], f)[0]
+                if n not in acc:
+                    acc.append(n)
+        elif s[0] == "assign":
             n = lvalue_name(s[1], env)
             if n not in acc:
                 acc.append(n)
@@ -1211,6 +1328,35 @@ def run_stmts(stmts, env, outs, has_ret):
     k = s[0]
     if k in ("skip",):
         return run_stmts(rest, env, outs, has_ret)
+    if k == "let" and slot_binding(s, env) is not None:
+        # which element is accessed is an output (<local>_slot); the element's fields are inputs/outputs
+        name, T, path, ie = slot_binding(s, env)
+        si, ti = ev(ie, env)
+        if ti not in ("usize", None):
+            raise TErr("index of type %s" % ti)
+        bind_slot(env, name, T, path)
+        env.v[name + "_slot"] = (name + "_slot", "usize")
+        env.ctx.local_names.add(name + "_slot")
+        return "(let %s_slot := %s in %s)" % (name, si, run_stmts(rest, env, outs, has_ret))
+    if k == "assign" and s[2][0] == "structlit":
+        so = slot_of(s[1], env)
+        if so is None or s[1][0] != "deref":
+            raise TErr("struct literal assigned to something else than `*<slot local>`")
+        flds = env.ctx.structs[so[1]]
+        if s[2][1] != so[1] or sorted(f for f, _ in s[2][2]) != sorted(flds):
+            raise TErr("struct literal %s does not give exactly the fields of %s" % (s[2][1], so[1]))
+        vals = [(f, ev(e2, env)) for f, e2 in s[2][2]]             # all right-hand sides first, in source order
+        binds = []
+        for f, (se, te) in vals:
+            n = slot_field(env, so[0], f)[0]
+            env.ctx.fresh += 1
+            tmp = "%s_%d" % (n, env.ctx.fresh)
+            env.setcur(n, (tmp, env.ctx.ptype[n]))
+            binds.append((tmp, se))
+        body = run_stmts(rest, env, outs, has_ret)
+        for tmp, se in reversed(binds):
+            body = "(let %s := %s in %s)" % (tmp, se, body)
+        return body
     if k == "let":
         if has_string(s[2]):
             return run_stmts(rest, env, outs, has_ret)
@@ -1390,6 +1536,8 @@ def translate(coq_name, rel, impl, fn, srcs, structs, consts):
     def canon_key(n):
         if n in fpos:
             return (2, (fpos[n],), n)
+        if n in ctx.slot_keys:
+            return (0, ctx.slot_keys[n], n)
         if n in ctx.pseudo and (id(ctx), n) not in FIELD_PATHS:
             return (3, (), n)
         path = FIELD_PATHS[(id(ctx), n)]
@@ -1437,6 +1585,9 @@ def translate(coq_name, rel, impl, fn, srcs, structs, consts):
         if n in ctx.pseudo and n.startswith("call_"):
             ctx.notes.append("%s = Some (arguments): self.%s(..), which is not translated and may change any field, is "
                              "called as the LAST effect of that path; None on the other paths" % (n, n[5:]))
+        elif n in ctx.pseudo and n.endswith("_slot"):
+            ctx.notes.append("%s = index of the one array element this function accesses; %s_<field> = that element's "
+                             "fields (inputs: before, outputs: after)" % (n, n[:-5]))
         elif n in ctx.pseudo:
             ctx.notes.append("%s = Some (lo, hi): that range of the slice parameter is copied into the byte array (bytes "
                              "themselves are not translated); None where nothing is copied" % n)
@@ -1520,6 +1671,10 @@ def main():
                 used += [e for e in m.get("enums", []) if e not in used]
         if used:
             hdr += "\n".join(enum_decl(e) for e in sorted(used)) + "\n"
+        deps = sorted({GROUP[c] for c in re.findall(r"\bleaf_(\w+)", "\n".join(ds)) if c in GROUP} - {g})
+        if deps:                                       # calls of leaves of another group
+            hdr = hdr.replace("Open Scope Z_scope.", "From Srtla Require Import %s.\nOpen Scope Z_scope." %
+                              " ".join("Leaf" + d for d in deps), 1)
         content = hdr + "\n".join(ds)
         out = os.path.join(OUTDIR, "Leaf%s.v" % g)
         try:
